@@ -12,7 +12,7 @@ open Lex PM Ast TP TS
 namespace TD
 variable {d : Gen.D}
 
-def attrKws : List String := ["UNSIGNED", "ZEROFILL", "CHARACTER", "COLLATE", "NULL", "NOT", "AUTO_INCREMENT", "DEFAULT", "ON", "COMMENT"]
+def attrKws : List String := ["UNSIGNED", "ZEROFILL", "CHARACTER", "COLLATE", "GENERATED", "NULL", "NOT", "AUTO_INCREMENT", "DEFAULT", "ON", "COMMENT"]
 
 theorem HeadIn.comment {ks : List String} (cm : Option String) (tail : List Tok) (hk : "COMMENT" ∈ ks) (h : HeadIn ks tail) :
     HeadIn ks (toksComment cm ++ tail) := by
@@ -34,6 +34,12 @@ theorem HeadIn.collate {ks : List String} (co : Option String) (tail : List Tok)
   cases co with
   | none => exact h
   | some s => exact HeadIn.cons _ _ hk
+theorem HeadIn.generated {ks : List String} (gen : Option GenCol) (tail : List Tok) (hk : "GENERATED" ∈ ks) (h : HeadIn ks tail) :
+    HeadIn ks (toksGenerated d gen ++ tail) := by
+  rcases gen with _ | ⟨e, _ | m⟩
+  · exact h
+  · exact h
+  · exact HeadIn.cons _ _ hk
 theorem HeadIn.charset {ks : List String} (cs : Option String) (tail : List Tok) (hk : "CHARACTER" ∈ ks) (h : HeadIn ks tail) :
     HeadIn ks (toksCharset cs ++ tail) := by
   cases cs with
@@ -48,8 +54,8 @@ theorem headIn_attrs (c : DefCol) : HeadIn attrKws (toksAttrs d c) := by
   split
   · unfold toksMyAttrs
     exact HeadIn.flag _ _ _ (by decide) (HeadIn.flag _ _ _ (by decide) (HeadIn.charset _ _ (by decide) (HeadIn.collate _ _ (by decide)
-      (HeadIn.flag _ _ _ (by decide) (HeadIn.flag _ _ _ (by decide) (HeadIn.flag _ _ _ (by decide) (HeadIn.default _ _ (by decide)
-        (HeadIn.onUpdate _ _ (by decide) hc))))))))
+      (HeadIn.generated _ _ (by decide) (HeadIn.flag _ _ _ (by decide) (HeadIn.flag _ _ _ (by decide) (HeadIn.flag _ _ _ (by decide)
+        (HeadIn.default _ _ (by decide) (HeadIn.onUpdate _ _ (by decide) hc)))))))))
   · exact hc
 
 theorem stop8_comment (cm : Option String) : stopLE d 8 (toksComment cm ++ []) = true :=
@@ -63,35 +69,37 @@ theorem pDefCol_ok (c : DefCol) (hc : colOK d c = true) (f : Nat) (hf : 20 * siz
     pDefCol d f (toksDefCol d c) = .ok (c, []) := by
   have hattr := headIn_attrs (d := d) c
   obtain ⟨n, ty, us, zf, cs, co, gen, an, nn, ai, df, ou, cm⟩ := c
-  simp only [colOK, Bool.and_eq_true, Option.isNone_iff_eq_none, nameOK, beq_iff_eq] at hc
-  obtain ⟨⟨⟨hn, hty⟩, hgen⟩, hrest⟩ := hc
-  subst hgen
-  have hsz : sizeL (toksDefCol d ⟨n, ty, us, zf, cs, co, none, an, nn, ai, df, ou, cm⟩) =
-      1 + (sizeL (toksType d ty) + sizeL (toksAttrs d ⟨n, ty, us, zf, cs, co, none, an, nn, ai, df, ou, cm⟩)) := by
+  simp only [colOK, Bool.and_eq_true, nameOK, beq_iff_eq] at hc
+  obtain ⟨⟨hn, hty⟩, hrest⟩ := hc
+  have hsz : sizeL (toksDefCol d ⟨n, ty, us, zf, cs, co, gen, an, nn, ai, df, ou, cm⟩) =
+      1 + (sizeL (toksType d ty) + sizeL (toksAttrs d ⟨n, ty, us, zf, cs, co, gen, an, nn, ai, df, ou, cm⟩)) := by
     simp [toksDefCol, sizeL_cons, sizeL_append, nameTok, size_single]
-  have h1 : pColType d f (toksType d ty ++ toksAttrs d ⟨n, ty, us, zf, cs, co, none, an, nn, ai, df, ou, cm⟩) =
-      .ok (ty, toksAttrs d ⟨n, ty, us, zf, cs, co, none, an, nn, ai, df, ou, cm⟩) :=
+  have h1 : pColType d f (toksType d ty ++ toksAttrs d ⟨n, ty, us, zf, cs, co, gen, an, nn, ai, df, ou, cm⟩) =
+      .ok (ty, toksAttrs d ⟨n, ty, us, zf, cs, co, gen, an, nn, ai, df, ou, cm⟩) :=
     pColType_ok ty hty _ (hattr.noParen (by decide)) f (by omega)
   simp only [pDefCol, toksDefCol, popSrc, hn, h1]
   by_cases hd : d = .MYSQL
   · subst hd
-    simp only [beq_self_eq_true, if_true, Bool.and_eq_true] at hrest
-    have hA : toksAttrs .MYSQL ⟨n, ty, us, zf, cs, co, none, an, nn, ai, df, ou, cm⟩ =
-        toksMyAttrs .MYSQL ⟨n, ty, us, zf, cs, co, none, an, nn, ai, df, ou, cm⟩ (toksComment cm) := by simp [toksAttrs]
+    simp only [if_true, Bool.and_eq_true] at hrest
+    have hA : toksAttrs .MYSQL ⟨n, ty, us, zf, cs, co, gen, an, nn, ai, df, ou, cm⟩ =
+        toksMyAttrs .MYSQL ⟨n, ty, us, zf, cs, co, gen, an, nn, ai, df, ou, cm⟩ (toksComment cm) := by simp [toksAttrs]
     rw [hA] at hsz ⊢
     simp only [toksMyAttrs, sizeL_append] at hsz
     have hfd : ∀ e, df = some e → 20 * sizeL (W .MYSQL noX e 8) + 2 ≤ f := by
       intro e he; subst he; simp only [toksDefault, sizeL_cons] at hsz; omega
     have hfo : ∀ e, ou = some e → 20 * sizeL (W .MYSQL noX e 8) + 2 ≤ f := by
       intro e he; subst he; simp only [toksOnUpdate, sizeL_cons] at hsz; omega
-    have k0 := dl_end (d := .MYSQL) f ⟨n, ty, us, zf, cs, co, none, an, nn, ai, df, ou, cm⟩
-    have k1 := dl_comment f n ty us zf cs co none an nn ai df ou cm [] _ _ k0
-    have k2 := dl_onUpdate f n ty us zf cs co none an nn ai df ou none _ _ _ (stop8_comment cm) hrest.2 hfo k1
-    have k3 := dl_default f n ty us zf cs co none an nn ai df none none _ _ _ (stop8_onUpdate ou cm) hrest.1 hfd k2
-    have k4 := dl_autoInc f n ty us zf cs co none an nn ai none none none _ _ _ k3
-    have k5 := dl_notNull f n ty us zf cs co none an nn false none none none _ _ _ k4
-    have k6 := dl_allowNull f n ty us zf cs co none an false false none none none _ _ _ k5
-    have k7 := dl_collate f n ty us zf cs co none false false false none none none _ _ _ k6
+    have hfg : ∀ e m, gen = some ⟨e, some m⟩ → 20 * sizeL (W .MYSQL noX e 8) + 2 ≤ f := by
+      intro e m he; subst he; simp only [toksGenerated, sizeL_cons, size_grp] at hsz; omega
+    have k0 := dl_end (d := .MYSQL) f ⟨n, ty, us, zf, cs, co, gen, an, nn, ai, df, ou, cm⟩
+    have k1 := dl_comment f n ty us zf cs co gen an nn ai df ou cm [] _ _ k0
+    have k2 := dl_onUpdate f n ty us zf cs co gen an nn ai df ou none _ _ _ (stop8_comment cm) hrest.1.2 hfo k1
+    have k3 := dl_default f n ty us zf cs co gen an nn ai df none none _ _ _ (stop8_onUpdate ou cm) hrest.1.1 hfd k2
+    have k4 := dl_autoInc f n ty us zf cs co gen an nn ai none none none _ _ _ k3
+    have k5 := dl_notNull f n ty us zf cs co gen an nn false none none none _ _ _ k4
+    have k6 := dl_allowNull f n ty us zf cs co gen an false false none none none _ _ _ k5
+    have k6' := dl_generated f n ty us zf cs co gen false false false none none none _ _ _ hrest.2 hfg k6
+    have k7 := dl_collate f n ty us zf cs co none false false false none none none _ _ _ k6'
     have k8 := dl_charset f n ty us zf cs none none false false false none none none _ _ _ k7
     have k9 := dl_zerofill f n ty us zf none none none false false false none none none _ _ _ k8
     have k10 := dl_unsigned f n ty us false none none none false false false none none none _ _ _ k9
@@ -100,8 +108,8 @@ theorem pDefCol_ok (c : DefCol) (hc : colOK d c = true) (f : Nat) (hf : 20 * siz
   · have hb : (d == Gen.D.MYSQL) = false := by simpa using hd
     rw [if_neg hd] at hrest
     simp only [Bool.and_eq_true, Bool.not_eq_true', Option.isNone_iff_eq_none] at hrest
-    obtain ⟨⟨⟨⟨⟨⟨⟨⟨h1, h2⟩, h3⟩, h4⟩, h5⟩, h6⟩, h7⟩, h8⟩, h9⟩ := hrest
-    subst h1 h2 h3 h4 h5 h6 h7 h8 h9
+    obtain ⟨⟨⟨⟨⟨⟨⟨⟨⟨g0, g1⟩, g2⟩, g3⟩, g4⟩, g5⟩, g6⟩, g7⟩, g8⟩, g9⟩ := hrest
+    subst g0 g1 g2 g3 g4 g5 g6 g7 g8 g9
     have hA : toksAttrs d ⟨n, ty, false, false, none, none, none, false, false, false, none, none, cm⟩ = toksComment cm := by
       simp [toksAttrs, hb]
     rw [hA]
